@@ -66,7 +66,7 @@ func (te *Extractor) Extract(reader io.Reader) error {
 	doUpdates := func() error {
 		for i := len(te.deferredUpdates) - 1; i >= 0; i-- {
 			m := te.deferredUpdates[i]
-			err := files.UpdateMetaUnix(m.path, uint32(m.mode), m.mtime)
+			err := applyDeferredUpdate(m)
 			if err != nil {
 				return err
 			}
@@ -406,6 +406,18 @@ type deferredUpdate struct {
 	mtime time.Time
 }
 
+// applyDeferredUpdate sets mode and mtime of a directory whose update was
+// deferred. A later archive entry may have replaced the directory by
+// something else, e.g. a symlink pointing out of the extraction target;
+// chmod follows symlinks, so only a path that still is a directory is
+// updated.
+func applyDeferredUpdate(m deferredUpdate) error {
+	if fi, err := os.Lstat(m.path); err != nil || !fi.IsDir() {
+		return nil
+	}
+	return files.UpdateMetaUnix(m.path, uint32(m.mode), m.mtime)
+}
+
 func (te *Extractor) deferUpdate(path string, header *tar.Header) error {
 	if header.Mode == 0 && header.ModTime.IsZero() {
 		return nil
@@ -425,7 +437,7 @@ func (te *Extractor) deferUpdate(path string, header *tar.Header) error {
 		// if possible, apply the previous deferral.
 		m := te.deferredUpdates[n-1]
 		if strings.HasPrefix(m.path, prefix()) {
-			err := files.UpdateMetaUnix(m.path, uint32(m.mode), m.mtime)
+			err := applyDeferredUpdate(m)
 			if err != nil {
 				return err
 			}
